@@ -73,6 +73,18 @@ def lost_update_on_local_copy(prog, fn, classes=("node", "face")):
         did = v.get("did")
         fi = prog.index(fn)
         muts = [m for m in walk(fn["body"]) if m.get("k") == "CXXMemberCallExpr" and not m.get("cconst") and strip(call_obj(m) or {}).get("k") == "DeclRefExpr" and (strip(call_obj(m)).get("ref") or {}).get("did") == did]
+        # ... or handed to a repository function through a parameter that is a non-const reference (the callee changes the copy)
+        for m in walk(fn["body"]):
+            if not is_call(m) or not m.get("ckey"):
+                continue
+            g = prog.functions.get(m["ckey"])
+            if g is None or not g.get("params"):
+                continue
+            for a_, p_ in zip(call_args(m), g["params"]):
+                pt = (p_.get("t") or "").strip()
+                sa = strip(a_)
+                if sa.get("k") == "DeclRefExpr" and (sa.get("ref") or {}).get("did") == did and pt.endswith("&") and not pt.startswith("const ") and not pt.endswith("&&"):
+                    muts.append(m)
         if not muts:
             continue
         first = min(fi.order[id(m)] for m in muts)
@@ -93,6 +105,8 @@ def lost_update_on_local_copy(prog, fn, classes=("node", "face")):
                 gp = fi.parent.get(id(p_), (None, None))[0] if p_ is not None else None
                 if p_ is not None and p_.get("k") == "MemberExpr" and gp is not None and gp.get("k") == "CXXMemberCallExpr" and not gp.get("cconst") and any(gp is m for m in muts):
                     continue        # the object of another mutation
+                if any(any(y is x for y in walk(a_)) for m in muts if is_call(m) and m.get("k") != "CXXMemberCallExpr" or (is_call(m) and strip(call_obj(m) or {}) is not x) for a_ in call_args(m) if strip(a_) is x):
+                    continue        # the argument of another mutating call
                 observed.append(x)
         if not observed:
             yield v, muts[0]
